@@ -65,7 +65,12 @@ func (fp *FilePath) Write(b []byte) (n int, err error) {
 
 	for i := 0; i < int(binary.BigEndian.Uint16(fp.ItemCount[:])); i++ {
 		var fpi FilePathItem
-		scanner.Scan()
+
+		// Stop when the data holds fewer items than ItemCount announces.  Without this check a stale token was
+		// appended up to 65535 times, and joining that many path items keeps a CPU busy for minutes.
+		if !scanner.Scan() {
+			return n, errors.New("file path item count exceeds data")
+		}
 
 		// Make a new []byte slice and copy the scanner bytes to it.  This is critical to avoid a data race as the
 		// scanner re-uses the buffer for subsequent scans.
